@@ -110,6 +110,27 @@ def _signer(kt, kl_name, priv):
     return s
 
 
+class _OddSigner(enc.Signer):
+    """writes a SignatureInfo with the given SignatureType (HMAC_WITH_SHA256 = 4, or an unassigned number) and the
+    given key locator, and 32 arbitrary signature bytes: nothing a public key could verify"""
+    def __init__(self, sig_type, kl_name):
+        self.sig_type = sig_type
+        self.kl_name = kl_name
+
+    def write_signature_info(self, signature_info):
+        signature_info.signature_type = self.sig_type
+        if self.kl_name is not None:
+            signature_info.key_locator = enc.KeyLocator()
+            signature_info.key_locator.name = self.kl_name
+
+    def get_signature_value_size(self):
+        return 32
+
+    def write_signature_value(self, wire, contents):
+        wire[:32] = bytes(range(32))
+        return 32
+
+
 def _flip_last(wire):
     b = bytearray(wire)
     b[-1] ^= 0x01
@@ -154,13 +175,15 @@ def materialise(world, kt, pool):
         rn = real_name(n, sh, dict(world.get('twin') or {}).get(n))
         m.name[n] = rn + [ver] if not sh.startswith('d') else rn
     key_ids = sorted(({c['key'] for c in certs.values()} | {c['sig'] for c in certs.values()} | {p['sig'] for p in pkts.values()})
-                     - {'forged', 'digest', 'none'})
+                     - {'forged', 'digest', 'none', 'hmac', 'unknownsig'})
     kidx = {k: i for i, k in enumerate(key_ids)}
 
     def signer_for(el):
         kl = None if el['kl'] == 'none' else m.name[el['kl']]
         if el['sig'] == 'digest':
             return DigestSha256Signer(), False
+        if el['sig'] in ('hmac', 'unknownsig'):
+            return _OddSigner(enc.SignatureType.HMAC_WITH_SHA256 if el['sig'] == 'hmac' else 200, kl), False
         if el['sig'] == 'forged':
             k = certs[el['kl']]['key'] if el['kl'] in certs else key_ids[0]
             return _signer(kt, kl, pool.get(kt, kidx[k])[0]), True
@@ -271,13 +294,19 @@ class Scenario:
 
     # ---- stimuli
     def new_validator(self, v, a):
+        # the anchor is handed over in a mutable buffer (what self_sign / new_cert return) which the caller then
+        # reuses: the validator must have taken what it needs at construction
+        buf = bytearray(self.mat.wire[a])
         try:
-            self.validator[v] = lvs_validator(checker_for(self.mat.sch), self.app[v], self.mat.wire[a])
+            self.validator[v] = lvs_validator(checker_for(self.mat.sch), self.app[v], buf)
             self.status[v] = 'ok'
         except ValueError:
             self.status[v] = 'refused'
         except BaseException as e:  # noqa
             self.status[v] = 'exc:' + type(e).__name__
+        other = [w for n, w in sorted(self.mat.wire.items()) if n != a and self.world['shape'].get(n) == 'root']
+        fill = (other[0] if other else b'') + bytes(len(buf))
+        buf[:] = fill[:len(buf)]          # the buffer now holds (the beginning of) another root certificate / zeros
         self.sess.loop.settle()
         self._scan()
 
